@@ -202,7 +202,7 @@ class MM:
         n = self.message_class_base(req)
         if not n.endswith("Request"):
             n += "Request"
-        part = n.replace("Request", "")
+        part = n[:-len("Request")]          # the trailing suffix only: a name may contain "Request" elsewhere
         return part + "Request", part + "Response", part
 
     def notification_class_name(self, note):
